@@ -916,7 +916,9 @@ def parse_arm_faithful(F):
             for arm in m["arms"]:
                 n_arm += 1
                 binds = {b["hid"]: b["name"] for b in walk(arm["pat"]) if b.get("k") == "Binding"}
-                if arm.get("guard") is not None and binds:
+                b_ = peel(arm["body"])
+                predicate_or_reject = (b_.get("k") == "Lit" and (b_.get("ty") == "bool" or "Bool" in (b_.get("lit") or ""))) or (arm["body"].get("ty") == "bool") or diverges(arm["body"])
+                if arm.get("guard") is not None and binds and not predicate_or_reject:
                     g = {y["res"]["hid"] for y in walk(arm["guard"]) if y.get("k") == "Path" and y.get("res", {}).get("r") == "local"}
                     bd = {y["res"]["hid"] for y in walk(arm["body"]) if y.get("k") == "Path" and y.get("res", {}).get("r") == "local"}
                     dropped = sorted(binds[h] for h in binds if h in g and h not in bd)
@@ -955,76 +957,96 @@ def name_index_selects(F):
     index the entry carries*: each write of a name happens to an element that was looked up with a value derived from
     `naming.index` (`get_mut(rel_idx)`, `[idx]`, `.nth(idx)`), or under an equality test against such a value.  A write
     whose target comes from merely advancing an iterator pairs the k-th entry with the k-th function: name maps may
-    omit functions, so every name after the first omitted one lands on the wrong function."""
+    omit functions, so every name after the first omitted one lands on the wrong function.  Helpers the arm calls are
+    followed (two levels), with the parameters that receive an index-derived argument counted as index-derived."""
     from vlib.facts import binding_site, guard_conditions
     r = RuleResult("R-NAME-INDEX",
                    "in parse_internal's wasmparser::Name::Function arm every name write addresses its function through the entry's index (indexed lookup or equality guard), never through iteration order alone")
     pi = F.one_fn(name="parse_internal", self_adt="Module")
     r.analysed.append(pi["path"])
-    n = 0
+    count = [0]
+
+    def analyse(owner, body, idx_hids, depth):
+        def idx_derived(e, d=0):
+            if d > 4 or not isinstance(e, (dict, list)):
+                return False
+            for y in walk(e):
+                if y.get("k") == "Field" and y["name"] == "index":
+                    return True
+                if y.get("k") == "Path" and y.get("res", {}).get("r") == "local" and y["res"].get("hid") in idx_hids:
+                    return True
+            for y in walk(e):
+                if y.get("k") == "Path" and y.get("res", {}).get("r") == "local":
+                    _p, scr, _k = binding_site(body, y["res"]["hid"])
+                    if scr is not None and scr is not e and _k != "for" and idx_derived(scr, d + 1):
+                        return True
+            return False
+
+        for x in walk(body):
+            if x.get("k") in ("Call", "MethodCall") and depth < 2:
+                cs = F.by_path.get(x.get("inst") or x.get("callee") or "") or []
+                if len(cs) == 1 and cs[0].get("body") is not None and cs[0] is not owner and cs[0].get("file", "").startswith("src/") and cs[0]["name"] not in ("add_to_namemap",):
+                    args = ([x["recv"]] if x.get("k") == "MethodCall" else []) + (x.get("args") or [])
+                    pms = cs[0].get("params", [])
+                    if len(pms) == len(args) and any(idx_derived(a) for a in args):
+                        sub = set()
+                        for pm, a in zip(pms, args):
+                            if idx_derived(a):
+                                for b in walk(pm["pat"]):
+                                    if b.get("k") == "Binding":
+                                        sub.add(b["hid"])
+                        if cs[0]["path"] not in r.analysed:
+                            r.analysed.append(cs[0]["path"])
+                        analyse(cs[0], cs[0]["body"], sub, depth + 1)
+            if x.get("k") != "Assign":
+                continue
+            pp = place_path(x["lhs"]) or ""
+            if not (pp.endswith(".custom_name") or pp.endswith(".name") or pp.endswith(".func_name")):
+                continue
+            count[0] += 1
+            root = peel(x["lhs"])
+            while isinstance(root, dict) and root.get("k") in ("Field", "Index", "Deref", "Unary", "MethodCall"):
+                if root.get("k") == "Index" and idx_derived(root["index"]):
+                    break
+                if root.get("k") == "MethodCall" and idx_derived(root.get("args") or []):
+                    break
+                root = peel(root.get("base") or root.get("recv") or root.get("a") or root.get("e") or {})
+            by_lookup = False
+            if isinstance(root, dict) and root.get("k") in ("Index", "MethodCall"):
+                by_lookup = True
+            elif isinstance(root, dict) and root.get("k") == "Path" and root.get("res", {}).get("r") == "local":
+                _p, scr, kind = binding_site(body, root["res"]["hid"])
+                if scr is not None and kind != "for" and idx_derived(scr):
+                    by_lookup = True
+            by_eq = False
+            for pol, cond in guard_conditions(body, x):
+                if pol is True:
+                    for c in walk(cond):
+                        if c.get("k") == "Binary" and c.get("op") == "==" and (idx_derived(c["a"]) or idx_derived(c["b"])):
+                            by_eq = True
+                        if c.get("k") == "MethodCall" and c["method"] == "eq" and idx_derived([c["recv"]] + (c.get("args") or [])):
+                            by_eq = True
+                elif pol == "pat":
+                    if idx_derived(cond[1]) and not (peel(cond[1]).get("k") == "Path"):
+                        by_lookup = True
+            ok = by_lookup or by_eq
+            r.ob(ok, {"in": owner["name"], "write": pp, "selected by": "indexed lookup" if by_lookup else ("equality with the entry's index" if by_eq else "iteration order")})
+            if not ok:
+                r.violate("%s | %s written by iteration order" % (owner["path"], pp.split(".")[-1]), F.loc(owner, x),
+                          "the function-name parser writes `%s` to an element that is not looked up by, or compared for equality with, the entry's index: the k-th name goes to the k-th function, and a name map that omits a function shifts every later name onto the wrong one" % pp)
+
+    found_arm = False
     for m in walk(pi["body"]):
         if m.get("k") != "Match" or (m.get("scrut_ty") or "").split("<")[0] != "wasmparser::Name":
             continue
         for arm in m["arms"]:
             if ("wasmparser::Name", "Function") not in pat_variants(arm["pat"])[0]:
                 continue
-            body = arm["body"]
-
-            def idx_derived(e, depth=0):
-                if depth > 4 or not isinstance(e, (dict, list)):
-                    return False
-                for y in walk(e):
-                    if y.get("k") == "Field" and y["name"] == "index":
-                        return True
-                for y in walk(e):
-                    if y.get("k") == "Path" and y.get("res", {}).get("r") == "local":
-                        _p, scr, _k = binding_site(body, y["res"]["hid"])
-                        if scr is not None and scr is not e and _k != "for" and idx_derived(scr, depth + 1):
-                            return True
-                return False
-
-            def for_bound(e, depth=0):
-                """locals in `e` (transitively) — is any bound by the loop over the names themselves? those carry the entry, fine"""
-                return False
-            for x in walk(body):
-                if x.get("k") != "Assign":
-                    continue
-                pp = place_path(x["lhs"]) or ""
-                if not (pp.endswith(".custom_name") or pp.endswith(".name") or pp.endswith(".func_name")):
-                    continue
-                n += 1
-                # the element written: root local of the place, and how it was obtained
-                root = peel(x["lhs"])
-                while isinstance(root, dict) and root.get("k") in ("Field", "Index", "Deref", "Unary", "MethodCall"):
-                    if root.get("k") == "Index" and idx_derived(root["index"]):
-                        break
-                    if root.get("k") == "MethodCall" and idx_derived(root.get("args") or []):
-                        break
-                    root = peel(root.get("base") or root.get("recv") or root.get("a") or root.get("e") or {})
-                by_lookup = False
-                if isinstance(root, dict) and root.get("k") in ("Index", "MethodCall"):
-                    by_lookup = True
-                elif isinstance(root, dict) and root.get("k") == "Path" and root.get("res", {}).get("r") == "local":
-                    _p, scr, kind = binding_site(body, root["res"]["hid"])
-                    if scr is not None and kind != "for" and idx_derived(scr):
-                        by_lookup = True
-                by_eq = False
-                for pol, cond in guard_conditions(body, x):
-                    if pol is True:
-                        for c in walk(cond):
-                            if c.get("k") == "Binary" and c.get("op") == "==" and (idx_derived(c["a"]) or idx_derived(c["b"])):
-                                by_eq = True
-                            if c.get("k") == "MethodCall" and c["method"] == "eq" and idx_derived([c["recv"]] + (c.get("args") or [])):
-                                by_eq = True
-                    elif pol == "pat":
-                        if idx_derived(cond[1]) and not (peel(cond[1]).get("k") == "Path"):
-                            by_lookup = True
-                ok = by_lookup or by_eq
-                r.ob(ok, {"write": pp, "selected by": "indexed lookup" if by_lookup else ("equality with the entry's index" if by_eq else "iteration order")})
-                if not ok:
-                    r.violate("%s | %s written by iteration order" % (pi["path"], pp.split(".")[-1]), F.loc(pi, x),
-                              "the function-name parser writes `%s` to an element that is not looked up by, or compared for equality with, the entry's index: the k-th name goes to the k-th function, and a name map that omits a function shifts every later name onto the wrong one" % pp)
-    r.count("name_writes", n)
-    if n < 2:
-        raise CheckError("function-name writes not found in parse_internal's Name::Function arm: %d" % n)
+            found_arm = True
+            analyse(pi, arm["body"], set(), 0)
+    r.count("name_writes", count[0])
+    if not found_arm:
+        r.undecided("the wasmparser::Name::Function arm is not in parse_internal's own body (moved into a helper): name writes not analysed")
+    elif count[0] < 2:
+        r.undecided("fewer than two function-name writes found under the Name::Function arm (%d): the arm was restructured beyond what this rule follows" % count[0])
     return r
